@@ -219,7 +219,10 @@ class C17(Check):
     def generate(self, arm, index, streams, tier):
         w = streams["work"]
         k = streams["knobs"]
-        radios = [k.randrange(1, 1 << 24) for _ in range(k.randrange(1, 4))]
+        nrad = k.randrange(1, 4)
+        if k.random() < 0.03:
+            nrad = k.choice([130, 260, 600])  # scale runs: a registry with hundreds of radios (and, below, a history long enough to fill it)
+        radios = [k.randrange(1, 1 << 24) for _ in range(nrad)]
         knobs = {
             "handler": "RRS" if k.random() < 0.85 else "HSTRP",
             "initial_sn": k.choice([0, 0, k.randrange(65536), 0xFFFD, 0xFFFE, 0xFFFC]),
@@ -242,6 +245,8 @@ class C17(Check):
         npeers = k.randrange(1, 4)
         peers = PEERS6 if topo == "A" and k.random() < 0.15 else PEERS
         n = k.choice([1, 2, 3, 5, 8, 13, 21, 34, 55, 89, 144, 200]) if topo == "A" else k.choice([3, 8, 20, 40, 80])
+        if nrad > 100 and topo == "A":
+            n = k.choice([400, 800])
         # class mix per run (swarm)
         classes = CLASSES + EXTRA_CLASSES
         weights = [w.choice([0, 1, 1, 2, 4]) for _ in classes]
